@@ -395,5 +395,85 @@ Definition rmod (x : rat) (r : Z) : option (option Z) :=
   | None => Some None
   end.
 
+(* ------------------------------------------------------------------ operator double / operator float (givrational.h) *)
+(* `operator double() const { return ((double)this->num)/((double)this->den); }`  and the float analogue.
+   (double)Integer is mpz_get_d: the value truncated toward zero to its 53 most significant bits (p = 53). *)
+Definition trunc_bits (p a : Z) : Z :=
+  let s := Z.log2 a + 1 - p in if s <=? 0 then a else (a / 2 ^ s) * 2 ^ s.
+
+(* IEEE-754 round-to-nearest-even of the positive quotient N/D into a binary format with precision p whose smallest
+   subnormal is 2^emin (emin <= 0; no upper exponent limit here: see `encode`).  Result (m, e) stands for m * 2^e.
+   Everything is scaled by 2^-emin so that only non-negative powers occur: N0/D is the quotient in units of 2^emin. *)
+Definition rne_quot (p emin N D : Z) : Z * Z :=
+  let N0 := N * 2 ^ (- emin) in
+  let k0 := Z.log2 N0 - Z.log2 D in
+  let k := if k0 <=? 0 then 0 else if N0 <? D * 2 ^ k0 then k0 - 1 else k0 in
+  let e' := Z.max (k - (p - 1)) 0 in
+  let D' := D * 2 ^ e' in
+  let q := N0 / D' in
+  let r := N0 mod D' in
+  let m := if 2 * r <? D' then q else if D' <? 2 * r then q + 1 else if Z.even q then q else q + 1 in
+  (m, e' + emin).
+
+(* packing into the bit fields: w exponent bits, p-1 fraction bits; exponent field 2^w-1 = infinity (overflow) *)
+Definition encode (p emin w : Z) (neg : bool) (me : Z * Z) : Z :=
+  let '(m, e) := me in
+  let '(m, e) := if m =? 2 ^ p then (2 ^ (p - 1), e + 1) else (m, e) in
+  let sub := m <? 2 ^ (p - 1) in
+  let E := if sub then 0 else e - emin + 1 in
+  let frac := if sub then m else m - 2 ^ (p - 1) in
+  let '(E, frac) := if E >=? 2 ^ w - 1 then (2 ^ w - 1, 0) else (E, frac) in
+  (if neg then 2 ^ (w + p - 1) else 0) + E * 2 ^ (p - 1) + frac.
+
+(* the 64 bits of (double)r; None: one of the two Integer -> double conversions is out of range (|.| >= 2^1024) *)
+Definition to_double (r : rat) : option Z :=
+  let n := Z.abs (num r) in let d := Z.abs (den r) in
+  if (2 ^ 1024 <=? n) || (2 ^ 1024 <=? d) then None else
+  if n =? 0 then Some 0 else
+  Some (encode 53 (-1074) 11 (num r <? 0) (rne_quot 53 (-1074) (trunc_bits 53 n) (trunc_bits 53 d))).
+
+(* (float)Integer = (float)mpz_get_d(.): truncation to 53 bits, then round-to-nearest-even to 24 bits *)
+Definition int_of_me (me : Z * Z) : Z := let '(m, e) := me in if e >=? 0 then m * 2 ^ e else m / 2 ^ (- e).
+Definition get_f (a : Z) : Z := int_of_me (rne_quot 24 (-149) (trunc_bits 53 a) 1).
+(* the 32 bits of (float)r; None: a conversion Integer -> float overflows (>= 2^128 after rounding) *)
+Definition to_float (r : rat) : option Z :=
+  let n := Z.abs (num r) in let d := Z.abs (den r) in
+  if (2 ^ 1024 <=? n) || (2 ^ 1024 <=? d) then None else
+  if n =? 0 then Some 0 else
+  let fn := get_f n in let fd := get_f d in
+  if (2 ^ 128 <=? fn) || (2 ^ 128 <=? fd) then None else
+  Some (encode 24 (-149) 8 (num r <? 0) (rne_quot 24 (-149) fn fd)).
+
+(* ------------------------------------------------------------------ qfield.h wrappers on a store of objects *)
+(* Objects live in a store (index -> pair); a call names the objects passed for r, a, b, c (any of them may coincide).
+   Right-hand sides such as `a * b + c` are evaluated into temporaries on the store as it is at the call, then
+   assigned / accumulated into r; for the two-address forms the argument IS *this exactly when the indices coincide. *)
+Definition store := Z -> rat.
+Definition upd (s : store) (i : Z) (v : rat) : store := fun j => if j =? i then v else s j.
+Definition exec_add (red : bool) (s : store) (r a b : Z) : store := upd s r (radd red (s a) (s b)).
+Definition exec_sub (red : bool) (s : store) (r a b : Z) : store := upd s r (rsub red (s a) (s b)).
+Definition exec_mul (red : bool) (s : store) (r a b : Z) : store := upd s r (rmul red (s a) (s b)).
+Definition exec_div (red : bool) (s : store) (r a b : Z) : option store :=
+  match rdiv red (s a) (s b) with Some v => Some (upd s r v) | None => None end.
+Definition exec_axpy (red : bool) (s : store) (r a b c : Z) : store := upd s r (q_axpy red (s a) (s b) (s c)).
+Definition exec_maxpy (red : bool) (s : store) (r a b c : Z) : store := upd s r (q_maxpy red (s a) (s b) (s c)).
+Definition exec_axmy (red : bool) (s : store) (r a b c : Z) : store := upd s r (q_axmy red (s a) (s b) (s c)).
+Definition exec_axpyin (red : bool) (s : store) (r a b : Z) : store := upd s r (q_axpyin red (s r) (s a) (s b)).
+Definition exec_maxpyin (red : bool) (s : store) (r a b : Z) : store := upd s r (q_maxpyin red (s r) (s a) (s b)).
+Definition exec_axmyin (red : bool) (s : store) (r a b : Z) : store := upd s r (q_axmyin red (s r) (s a) (s b)).
+Definition exec_addin (red : bool) (s : store) (r a : Z) : store := upd s r (addin (a =? r) (s a) red (s r)).
+Definition exec_subin (red : bool) (s : store) (r a : Z) : store := upd s r (subin (a =? r) (s a) red (s r)).
+Definition exec_mulin (red : bool) (s : store) (r a : Z) : store := upd s r (mulin (a =? r) (s a) red (s r)).
+Definition exec_divin (red : bool) (s : store) (r a : Z) : option store :=
+  match divin (a =? r) (s a) red (s r) with Some v => Some (upd s r v) | None => None end.
+Definition exec_neg (s : store) (r a : Z) : store := upd s r (q_neg (s a)).
+Definition exec_inv (s : store) (r a : Z) : store := upd s r (q_inv (a =? r) (s a)).
+Definition exec_assign (s : store) (r a : Z) : store := upd s r (s a).
+(* `r = a * b; return r += c;` (the seeded change C10-m6, kept as the counter-example): the second statement runs on
+   the store written by the first *)
+Definition exec_axpy_two_step (red : bool) (s : store) (r a b c : Z) : store :=
+  let s1 := upd s r (rmul red (s a) (s b)) in
+  upd s1 r (addin (c =? r) (s1 c) red (s1 r)).
+
 (* ------------------------------------------------------------------ wrappers for extraction *)
 Definition optpair (o : option rat) : bool * rat := match o with Some r => (true, r) | None => (false, (0, 0)) end.
